@@ -99,8 +99,8 @@ def run(ctx):
     pc.calibrate()
     q = ctx.quick
     ctx.units("golden", unit_golden, [{}])
-    ctx.units("ast-hypothesis", unit_ast, [{"n": 1000 if q else 20000, "seed": ctx.seed, "shard": i} for i in range(4 if q else 16)], procs=16)
-    ctx.units("compiler-reuse", unit_reuse, [{"n": 300 if q else 4000, "seed": ctx.seed, "shard": i} for i in range(4 if q else 16)], procs=16)
+    ctx.units("ast-hypothesis", unit_ast, [{"n": 1500 if q else 20000, "seed": ctx.seed, "shard": i} for i in range(8 if q else 16)], procs=16)
+    ctx.units("compiler-reuse", unit_reuse, [{"n": 450 if q else 4000, "seed": ctx.seed, "shard": i} for i in range(8 if q else 16)], procs=16)
     from . import textdocs
     textdocs.run_text(ctx, "C07")
     ctx.rule = ("ASTs biased to backgrounds at feature and rule level (0..3 steps), up to 3 rules, every argument kind incl. empty "
